@@ -19,6 +19,11 @@ from vp.core import env
 from vp.core.acc import Acc, jsonable, unjson
 
 HERE = env.VERIF
+# evidence of a run against a scratch tree (VP_REPO=...: sensitivity trials, seeded changes) must never replace the
+# evidence of /repo itself
+EVDIR = os.environ.get("VP_EVIDENCE_DIR") or (
+    os.path.join(HERE, "evidence") if os.path.realpath(env.REPO) == "/repo"
+    else os.path.join("/var/tmp", "vp-scratch-evidence"))
 
 
 def find_module(pid):
@@ -162,7 +167,7 @@ def main(argv=None):
     known_cases = 0
     violations = []
     known_lines = {}
-    os.makedirs(os.path.join(HERE, "evidence", "replays"), exist_ok=True)
+    os.makedirs(os.path.join(EVDIR, "replays"), exist_ok=True)
     for sig in sorted(total.failures):
         matched = None
         for f in findings:
@@ -174,7 +179,7 @@ def main(argv=None):
             known_lines.setdefault(matched["raw"], matched["what"])
             continue
         f0 = total.failures[sig][0]
-        path = os.path.join(HERE, "evidence", "replays", "%s-%d-%d.json" % (pid, seed, len(violations)))
+        path = os.path.join(EVDIR, "replays", "%s-%d-%d.json" % (pid, seed, len(violations)))
         with open(path, "w") as fh:
             json.dump({"property": pid, "sig": sig, "what": f0.what, "case": f0.case,
                        "cases_with_this_signature": total.fail_counts[sig]}, fh, indent=1, sort_keys=True)
@@ -210,12 +215,12 @@ def main(argv=None):
         "assumptions": list(getattr(mod, "ASSUMPTIONS", [])),
         "wall_s": round(time.time() - t0, 2), "violations": len(violations),
     }
-    os.makedirs(os.path.join(HERE, "evidence"), exist_ok=True)
-    tmp = os.path.join(HERE, "evidence", pid + ".json.tmp")
+    os.makedirs(EVDIR, exist_ok=True)
+    tmp = os.path.join(EVDIR, pid + ".json.tmp")
     with open(tmp, "w") as fh:
         json.dump(ev, fh, indent=1, sort_keys=True)
         fh.write("\n")
-    os.replace(tmp, os.path.join(HERE, "evidence", pid + ".json"))
+    os.replace(tmp, os.path.join(EVDIR, pid + ".json"))
 
     for sig, what, path in violations:
         print("violation sig=%s: %s" % (sig, what[:600]))
